@@ -1002,6 +1002,10 @@ where
                         runtime_types.insert(Some(atom!("Object")));
                     }
                 });
+                if members.is_empty() {
+                    // `{}`
+                    runtime_types.insert(Some(atom!("Object")));
+                }
             }
             TsType::TsFnOrConstructorType(..) => {
                 runtime_types.insert(Some(atom!("Function")));
@@ -1050,6 +1054,9 @@ where
                             runtime_types.insert(Some(atom!("Object")));
                         }
                     });
+                    if body.is_empty() {
+                        runtime_types.insert(Some(atom!("Object")));
+                    }
                 } else {
                     match &*ident.sym {
                         "Array" | "Function" | "Object" | "Set" | "Map" | "WeakSet" | "WeakMap"
